@@ -19,6 +19,7 @@ mod c24;
 mod c25;
 mod c26;
 mod c27;
+mod fri_attacks;
 mod frih;
 
 fn main() {
